@@ -89,7 +89,7 @@ func main() {
 		fs := flag.NewFlagSet("run", flag.ExitOnError)
 		harness := fs.String("h", "", "harness function")
 		tier := fs.String("tier", "quick", "quick|thorough")
-		tmo := fs.Int("timeout", 300, "seconds")
+		tmo := fs.Int("timeout", 0, "seconds (0: the registered cap)")
 		workers := fs.Int("workers", 16, "parallel workers")
 		profile := fs.String("profile", "bit", "bit|arith")
 		logSMT := fs.String("smtlog", "", "write worker 0's SMT-LIB stream here")
@@ -104,7 +104,9 @@ func main() {
 		spec := HarnessSpec{Name: *harness, Profile: *profile, TimeoutQuick: *tmo, TimeoutThorough: *tmo}
 		if hs := findHarness(*harness); hs != nil {
 			spec = *hs
-			spec.TimeoutQuick, spec.TimeoutThorough = *tmo, *tmo
+			if *tmo > 0 {
+				os.Setenv("GOSX_TIMEOUT", strconv.Itoa(*tmo))
+			}
 			if fs.Lookup("profile").Value.String() != "bit" {
 				spec.Profile = *profile
 			}
